@@ -6,10 +6,10 @@ CONSTANTS
     DataKeys = {1, 2, 3}
     Kinds = {"Set", "Del"}
     WsKinds = {"Set", "Del"}
-    BugNoneBound = TRUE
-    BugInverted = TRUE
-    BugSwitch = TRUE
-    BugMemLast = TRUE
+    BugNoneBound = FALSE
+    BugInverted = FALSE
+    BugSwitch = FALSE
+    BugMemLast = FALSE
     MaxCommits = 2
     MaxLate = 1
     MaxWs = 0
